@@ -312,6 +312,8 @@ def near_miss(s, rng):
 
 
 def gen_value(field, rng):
+    if rng.random() < 0.04:
+        return rng.choice(FALSY)
     s = member(field, rng)
     r = rng.random()
     if r < 0.45:
@@ -321,6 +323,8 @@ def gen_value(field, rng):
         s = near_miss(s, rng)
     return s
 
+
+FALSY = ['', '0', ' ', '\x00', 'None', 'False', '[]', '{}']      # empty and falsy-looking strings, tried at every string entry point
 
 WS_KINDS = {'nl': '\n', 'tab': '\t', 'space': ' ', 'cr': '\r', 'nbsp': '\xa0', 'mixed': ' \n\t\r\xa0'}
 WS_PLACES = ('trail', 'lead', 'both')
@@ -391,7 +395,10 @@ def c_kvs(kvs):
 def c_result(o, okf):
     if 'err' in o:
         return '(Err %s)' % cexn(o['err'])
-    return '(Ok %s)' % okf(o['ok'])
+    try:
+        return '(Ok %s)' % okf(o['ok'])
+    except (AssertionError, TypeError, AttributeError):
+        return '(Err EOther)'        # the implementation returned a value of an unexpected type: never what the model predicts
 
 
 HEADER = ('From Coq Require Import List ZArith NArith.\nImport ListNotations.\n'
@@ -513,12 +520,16 @@ def gen_intlit(rng):
 
 
 def gen_tag(rng):
+    if rng.random() < 0.06:
+        return rng.choice(FALSY)
     n = rng.choice([0, 1, 2, 10, 254, 255, 256])
     s = wordish(rng, n, '-')
     return s if rng.random() < 0.6 else near_miss(s, rng)
 
 
 def gen_name(cls, rng):
+    if rng.random() < 0.06:
+        return rng.choice(FALSY)
     lo, hi, extra = NAME_DOC.get(cls, (2, 255, '-.'))
     n = rng.choice([0, 1, 2, 3, 12, 254, 255, 256])
     s = wordish(rng, n, extra if rng.random() < 0.8 else '-+_/. :')
@@ -588,6 +599,9 @@ class LabelsStream(Stream):
             out.append({'entry': e, 'base': [], 'kws': [['vlan', '7'], ['zz_unknown', 5]]})
             out.append({'entry': e, 'base': [], 'kws': [['asn', '4294967295'], ['vlan_range', '10-9']]})
             out.append({'entry': e, 'base': [], 'kws': [['ipv6', ''], ['bdf', '0000:00:00x0']]})
+            for f in ALL_FIELDS:
+                for v in FALSY[:4]:
+                    out.append({'entry': e, 'base': [], 'kws': [[f, v if (len(f) + len(v)) % 2 else [v]]]})
         return out + kept_corpus('labels')
 
     def observe(self, case):
@@ -877,6 +891,17 @@ class Misc(Stream):
                 out.append({'kind': 'name', 'cls': cls, 'v': v})
             for p in [chr(c) for c in range(128) if not chr(c).isalnum()]:     # sweep of the ASCII non-alphanumerics, per class
                 out.append({'kind': 'name', 'cls': cls, 'v': 'ab' + p + 'cd'})
+        for v in FALSY:
+            for cls in NAME_DOC:
+                out.append({'kind': 'name', 'cls': cls, 'v': v})
+            out.append({'kind': 'tags', 'args': [v]})
+            out.append({'kind': 'tags', 'args': [['ok', v]]})
+            out.append({'kind': 'tags_json', 'args': [[v]]})
+            out.append({'kind': 'boot', 'v': v})
+            for cls in JD_DOC:
+                out.append({'kind': 'jd_str', 'cls': cls, 'v': v})
+        for cls in NAME_DOC:
+            out.append({'kind': 'name', 'cls': cls, 'v': None})
         for t in ('blue green', 'a b c', 'x' * 255 + ' y', ' a', 'a ', 'a  b', 'a\tb', 'a,b'):
             out.append({'kind': 'tags', 'args': [t]})
             out.append({'kind': 'tags', 'args': [[t]]})
@@ -1268,8 +1293,15 @@ class Topo(Stream):
 
     def corpus(self):
         out = []
+        for cls in ('NodeSliver', 'ComponentSliver', 'NetworkServiceSliver'):
+            for v in FALSY:
+                out.append({'kind': 'add', 'cls': cls, 'v': v})
+        for v in FALSY:
+            out.append({'kind': 'boot', 'v': v, 'how': 'attr'})
+            out.append({'kind': 'tags', 'args': [v]})
+            out.append({'kind': 'blob_prop', 'prop': 'user_data', 'v': v, 'how': 'attr'})
         for cls in FIX:
-            for v in ['x', 'ok-name', 'bad\n', FIX[cls]] + SIBLINGS[cls]:
+            for v in ['x', 'ok-name', 'bad\n', FIX[cls]] + SIBLINGS[cls] + FALSY:
                 out.append({'kind': 'set', 'cls': cls, 'v': v})
                 out.append({'kind': 'rename', 'cls': cls, 'v': v})
             for p in ASCII_NON_ALNUM:           # every ASCII punctuation / control character inside a name, per class
